@@ -241,9 +241,77 @@ def _definitions_first(s):
     return rebuild(s, "")
 
 
+def _defs(s):
+    """full name -> definition (with its namespace context) of every named type defined in s"""
+    from vf.oracles.ir import fullname
+    out = {}
+
+    def walk(x, ns):
+        if isinstance(x, list):
+            for b in x:
+                walk(b, ns)
+        elif isinstance(x, dict):
+            t = x.get("type")
+            cns = ns
+            if t in ("record", "error", "enum", "fixed") and "name" in x:
+                cns, full = fullname(x["name"], x.get("namespace"), ns)
+                out[full] = (x, cns)
+            for f in x.get("fields", []) if isinstance(x.get("fields"), list) else []:
+                walk(f["type"], cns)
+            if t == "array":
+                walk(x["items"], ns)
+            elif t == "map":
+                walk(x["values"], ns)
+    walk(s, "")
+    return out
+
+
+def _names_only(x, ns):
+    """copy of a type expression in which nested named definitions are replaced by their full names"""
+    from vf.oracles.ir import fullname
+    if isinstance(x, list):
+        return [_names_only(b, ns) for b in x]
+    if isinstance(x, str):
+        return x if (x in PRIMS or "." in x or not ns) else ns + "." + x
+    if isinstance(x, dict):
+        t = x.get("type")
+        if t in ("record", "error", "enum", "fixed") and "name" in x:
+            return fullname(x["name"], x.get("namespace"), ns)[1]
+        d = dict(x)
+        if t == "array":
+            d["items"] = _names_only(x["items"], ns)
+        elif t == "map":
+            d["values"] = _names_only(x["values"], ns)
+        return d
+    return x
+
+
+def _ref_variants(writer):
+    """a by-name use of a record replaced, in the reader, by a differently named record that matches it through an
+    alias and adds a defaulted field: the same writer type then resolves against two different reader types"""
+    defs = _defs(writer)
+    out = []
+    for path, node in positions(writer):
+        if _kind(node) != "ref" or not path:
+            continue
+        ns = _ns_at(writer, path)
+        full = node if ("." in node or not ns) else ns + "." + node
+        if full not in defs or defs[full][0].get("type") not in ("record", "error"):
+            continue
+        d, dns = defs[full]
+        simple = full.split(".")[-1]
+        variant = {"type": "record", "name": ("%s.Alt%s" % (full.rsplit(".", 1)[0], simple)) if "." in full else "Alt" + simple,
+                   "aliases": [full],
+                   "fields": [dict(f, type=_names_only(f["type"], dns)) for f in d.get("fields", [])]
+                   + [{"name": "added", "type": "int", "default": 42}]}
+        out.append(("ref-to-aliased-record-variant@" + "/".join(map(str, path)), replace_at(writer, path, variant)))
+    return out
+
+
 def readers(writer):
     """list of (label, reader schema): identity + every step at every position"""
     out = [("identity-copy", copy.deepcopy(writer))]
+    out += _ref_variants(writer)
     seen = set()
     for path, node in positions(writer):
         for label, new in steps(node):
